@@ -60,6 +60,10 @@ func backClosure(v ssa.Value, through func(ssa.Value) []ssa.Value) map[ssa.Value
 			return
 		}
 		seen[x] = true
+		if a := deparam(x); a != x {
+			visit(a)
+			return
+		}
 		switch y := x.(type) {
 		case *ssa.Phi:
 			for _, e := range y.Edges {
